@@ -9,8 +9,9 @@ circuits are compared EXACTLY: the model computes amplitudes in Z[zeta16][1/2]; 
 Oracle (independent of the model, on the real code): dense numpy product of kron-embedded gate matrices
 against every evaluation path, 1e-9.
 
-The model describes the code REPAIRED by fixes/C01-1.patch (sorted merged indices in _mult_sublists) and
-fixes/C01-2.patch (scalar conjugate for GLOBALPHASE in density-matrix mode)."""
+The model describes the code REPAIRED by fixes/C01-1.patch (sorted merged indices in _mult_sublists),
+fixes/C01-2.patch (scalar conjugate for GLOBALPHASE in density-matrix mode) and /repo commit c6903aa
+(the `state` getter no longer overwrites the internal tensor)."""
 import cmath, functools, itertools, math, time
 import numpy as np
 
@@ -401,7 +402,7 @@ class C01(PropertyCheck):
                   "(counter-example proved in the kernel, witness confirmed on CPython with 9 qubits). The model is tied to the "
                   "code by an exact correspondence (amplitudes in Z[zeta16][1/2]) over every placed library gate on 1-3 qubits, "
                   "pairs of placed gates, seeded random circuits up to 6 qubits with user gates, and 9-11(12) qubit compact products.")
-    level_note = ("The theorems describe the code repaired by fixes/C01-1/2/3.patch; on the unpatched tree the check reports the three "
+    level_note = ("The theorems describe the code repaired by fixes/C01-1.patch, fixes/C01-2.patch and /repo commit c6903aa; on the unpatched tree the check reports the open "
                   "defects as violations. Trusted: Lean kernel; the meaning of np.einsum / reshape / tensor / permute / dag / ket2dm as "
                   "written in the model (validated by the correspondence); the library gates' matrices are those of C09.")
     trusted_base = [
